@@ -121,6 +121,7 @@ func runC17(t *testing.T, sched simrt.Schedule, prog c17Prog) ([]Violation, RunS
 			nodes = append(nodes, c)
 		}
 		majority := prog.N/2 + 1
+		primed := map[[2]string]bool{}
 
 		// ---- invariants, evaluated at every network event and step boundary
 		lastTerm := map[string]int{}
@@ -278,9 +279,25 @@ func runC17(t *testing.T, sched simrt.Schedule, prog c17Prog) ([]Violation, RunS
 					}
 				}
 			}
-			// (g) nodes whose rings differ refuse each other's topic traffic
+			// (g) nodes whose rings differ refuse each other's topic traffic - also on a multiplexing session
+			// that was established while the rings agreed
 			for _, a := range nodes {
 				for _, b := range nodes {
+					if a != b && a.ring.Signature() == b.ring.Signature() && !primed[[2]string{a.thisNodeName, b.thisNodeName}] {
+						rejected := false
+						b.TopicMaster(&ClusterReq{Node: a.thisNodeName, Signature: a.ring.Signature(), Fingerprint: a.fingerprint, RcptTo: "grpC17est" + b.thisNodeName, ReqType: ProxyReqLeave}, &rejected)
+						if !rejected {
+							primed[[2]string{a.thisNodeName, b.thisNodeName}] = true
+						}
+					}
+					if a != b && a.ring.Signature() != b.ring.Signature() && primed[[2]string{a.thisNodeName, b.thisNodeName}] {
+						simrt.Probe("c17.signature_gate_established_judged")
+						rejected := false
+						b.TopicMaster(&ClusterReq{Node: a.thisNodeName, Signature: a.ring.Signature(), Fingerprint: a.fingerprint, RcptTo: "grpC17est" + b.thisNodeName, ReqType: ProxyReqLeave}, &rejected)
+						if !rejected {
+							report("topic-request-accepted-across-rings", "step %d: %s accepted a TopicMaster request from %s on an established multiplexing session although their ring signatures differ", si, b.thisNodeName, a.thisNodeName)
+						}
+					}
 					if a != b && a.ring.Signature() != b.ring.Signature() {
 						simrt.Probe("c17.signature_gate_judged")
 						rejected := false
